@@ -23,6 +23,7 @@ func init() {
 	vrt.Register("C12_nested_calls", NestedCalls)
 	vrt.Register("C12_error_result_positions", ErrorResultPositions)
 	vrt.Register("C12_fresh_options_per_call", FreshOptionsPerCall)
+	vrt.Register("C12_chained_calls", ChainedCalls)
 }
 
 func itoa(n int) string { return strconv.Itoa(n) }
@@ -575,5 +576,59 @@ func FreshOptionsPerCall() {
 	_, err = render("<%= fm(n) %>", ctx)
 	vrt.Assert(err == nil, "the later call renders")
 	vrt.Assert(strings.Join(r.log, ";") == "fm("+itoa(n)+",{})", "a later render receives a fresh empty map too")
+	vrt.Cover("done")
+}
+
+// a chain head(args).Method(args) { block }: each call gets its own arguments and
+// its own helper context; the block belongs to the call it follows, the head's
+// context carries none
+type form struct{ r *rec }
+
+func (f form) Field(k int, help plush.HelperContext) (string, error) {
+	s := "noblock"
+	if help.HasBlock() {
+		b, err := help.Block()
+		if err != nil {
+			return "", err
+		}
+		s = "block:" + b
+	}
+	f.r.log = append(f.r.log, "Field("+itoa(k)+","+s+")")
+	return "rf", nil
+}
+
+func (f form) Plain(k int) string {
+	f.r.log = append(f.r.log, "Plain("+itoa(k)+")")
+	return "rp"
+}
+
+func (r *rec) formFor(n int, help plush.HelperContext) form {
+	s := "noblock"
+	if help.HasBlock() {
+		s = "block"
+	}
+	r.log = append(r.log, "formFor("+itoa(n)+","+s+")")
+	return form{r}
+}
+
+func ChainedCalls() {
+	r := &rec{}
+	ctx := ctxWith(r)
+	ctx.Set("formFor", r.formFor)
+	n, v := vrt.Int(), vrt.Int()
+	ctx.Set("n", n)
+	ctx.Set("v", v)
+	N, V := itoa(n), itoa(v)
+	cases := []struct{ in, log, out string }{
+		{"formFor(n).Field(v)", "formFor(" + N + ",noblock);Field(" + V + ",noblock)", "rf"},
+		{"formFor(n).Field(v) { %>B<%= n %><% }", "formFor(" + N + ",noblock);Field(" + V + ",block:B" + N + ")", "rf"},
+		{"formFor(n).Plain(v)", "formFor(" + N + ",noblock);Plain(" + V + ")", "rp"},
+		{"formFor(v).Field(n) { %><% }", "formFor(" + V + ",noblock);Field(" + N + ",block:)", "rf"},
+	}
+	c := cases[vrt.Choice(len(cases))]
+	out, err := render("[<%= "+c.in+" %>]", ctx)
+	vrt.Assert(err == nil, "a chained helper call renders")
+	vrt.Assert(strings.Join(r.log, ";") == c.log, "each call of a chain receives its own arguments and its own block (the head none)")
+	vrt.Assert(out == "["+c.out+"]", "the value of the chain is the last call's first result")
 	vrt.Cover("done")
 }
